@@ -66,13 +66,12 @@ class _FileProxy:
             return len(s)
         n = len(s.encode('utf-8')) if isinstance(s, str) else len(s)
 
-        def do():        # buffered: a crash flushes what was written so far (Tap.step closes the proxies)
+        def do():        # into the real file object's userspace buffer, exactly as in production
             self._f.write(s)
             return len(s)
 
         def partial(cut):
             self._f.write(s[:cut])
-            self._f.flush()
         return tap.step(['write', self._tag, n], do, partial)
 
     def writelines(self, lines):
@@ -81,15 +80,33 @@ class _FileProxy:
 
     def flush(self):
         if not self._tap.crashed and not self._closed:
-            self._f.flush()
+            self._tap.step(['flush', self._tag], self._f.flush)
 
     def close(self):
         if self._closed:
             return
         if self._tap.crashed:
-            self._really_close()
+            self._abandon()
             return
         self._tap.step(['close', self._tag], self._really_close)
+
+    def _abandon(self):
+        """the process is dead: what is still in the userspace buffer of the file object never reaches the
+        file.  The descriptor is pointed at /dev/null before the object is closed, so the flush that close()
+        performs goes nowhere; only what CPython itself had already flushed is in the file."""
+        if not self._closed:
+            self._closed = True
+            try:
+                dn = os.open(os.devnull, os.O_WRONLY)
+                try:
+                    os.dup2(dn, self._f.fileno())
+                finally:
+                    os.close(dn)
+            finally:
+                try:
+                    self._f.close()
+                except OSError:
+                    pass
 
     def _really_close(self):
         if not self._closed:
@@ -147,8 +164,8 @@ class Tap:
                 if partial is not None and self.cut > 0:
                     partial(self.cut)
             finally:
-                for p in self.proxies:       # the OS closes the descriptors of a dead process
-                    p._really_close()
+                for p in self.proxies:       # buffered data dies with the process
+                    p._abandon()
             raise Crash()
         r = do()
         self.steps.append(rec)
@@ -617,7 +634,7 @@ class Runner:
                 tap = Tap(sc.root, sc.main)
                 outcome = self.call(store, it, tap)
                 after = sc.snap()
-                row = {'outcome': outcome, 'steps': tap.steps, 'reads': tap.reads, 'points': [], 'tags': [],
+                row = {'outcome': outcome, 'steps': tap.steps, 'reads': tap.reads, 'points': [], 'mpoints': [], 'tags': [],
                        'crashed': None}
                 res['items'].append(row)
                 writes = [s[2] for s in tap.steps if s[0] == 'write']
@@ -665,6 +682,10 @@ class Runner:
                         out2 = self.call(st2, it, tap2)
                         crashed_state = sc.snap()
                         row['points'].append((k, cut))
+                        # the model's cut: how much of the data the file object was holding survived the death
+                        # (any buffering policy of the runtime is some such amount; the model is told which)
+                        survived = snap_obs(crashed_state)[2]
+                        row['mpoints'].append((k, 0 if survived is None else len(survived)))
                         row['tags'].append(_crash_tag(before, new_main, crashed_state, out2))
                         stepname = 'complete' if k >= nsteps else tap.steps[k][0] + ('-cut' if cut else '')
                         v, which = self._crash_oracle(sc, handles, crashed_state, views_before, views_after, before, after)
@@ -678,7 +699,7 @@ class Runner:
                         break
                     if inline and row['points'] and row['points'][-1][0] < nsteps:
                         # the history continues from the crashed state: nothing was committed
-                        row['crashed'] = row['points'][-1]
+                        row['crashed'] = row['mpoints'][-1]
                         row['outcome_crashed'] = out2
                         after = crashed_state
                         if which == 'old':
@@ -827,7 +848,7 @@ def model_expr(hist, res):
             item = f"Crash {h} {coq_op(it)} {lens} {k}%nat {cut}%nat"
         else:
             item = f"Do {h} {coq_op(it)} {lens}"
-        pts = '(nat_pairs ' + coq_list(row['points'], lambda p: f'({p[0]}, {p[1]})') + ')'
+        pts = '(nat_pairs ' + coq_list(row['mpoints'], lambda p: f'({p[0]}, {p[1]})') + ')'
         items.append(f'({item}, {pts})')
     return f"let '(t, f) := c_trace {fs} [{'; '.join(items)}] in (t, f_main f)"
 
